@@ -81,7 +81,10 @@ Fixpoint inodes_node (n : node) : list N :=
   end.
 Definition inodes_of (kk : list node) : list N := flat_map inodes_node kk.
 
-Definition canon_ok (c : str) : Prop := ends_with [47] c = false /\ 1 <= calc_depth c.
+(* a canonical path: the root directory "/" itself, or a path with at least one separator and no
+   trailing one (every absolute path other than "/") *)
+Definition canon_ok (c : str) : Prop :=
+  c = [47] \/ (ends_with [47] c = false /\ 1 <= count_char 47 c).
 
 Definition hts (kk : list node) : nat := fold_right (fun k a => Nat.max (height k) a) 0%nat kk.
 Lemma height_dir a i g l kk : height (NDir a i g l kk) = S (hts kk).
@@ -126,27 +129,70 @@ Qed.
 Lemma name_ok_count nm : name_okb nm = true -> count_char 47 nm = 0.
 Proof. unfold name_okb. intros H. apply andb_true_iff in H. destruct H as [_ H]. apply negb_true_iff in H. now apply contains_count. Qed.
 
-Lemma calc_depth_join c nm : ends_with [47] c = false -> c <> [] -> name_okb nm = true ->
-  calc_depth (join_path c nm) = calc_depth c + 1.
-Proof.
-  intros He Hc Hn. unfold join_path, calc_depth. destruct c as [|x c]; [congruence|]. rewrite He.
-  rewrite !count_char_app, (name_ok_count nm Hn). cbn [count_char]. rewrite N.eqb_refl. lia.
-Qed.
-
 Lemma ends_join c nm : name_okb nm = true -> ends_with [47] (join_path c nm) = false.
 Proof.
   intros Hn. unfold join_path. destruct c as [|x c]; [apply (name_ok_ends nm [] Hn)|].
   destruct (ends_with [47] (x :: c)); [now apply name_ok_ends|]. rewrite app_assoc. now apply name_ok_ends.
 Qed.
 
+Lemma canon_ok_nonempty c : canon_ok c -> c <> [].
+Proof. intros [->|[_ Hk]]; [discriminate|]. intros ->. cbn [count_char] in Hk. lia. Qed.
+
+Lemma calc_depth_root : calc_depth [47] = 1.
+Proof. reflexivity. Qed.
+
+Lemma calc_depth_pos p : 1 <= calc_depth p.
+Proof. unfold calc_depth. destruct (str_eqb p [47]); lia. Qed.
+
+Lemma calc_depth_nonroot p : p <> [47] -> calc_depth p = count_char 47 p + 1.
+Proof.
+  intros Hp. unfold calc_depth. destruct (str_eqb p [47]) eqn:E; [|reflexivity].
+  apply str_eqb_eq in E. contradiction.
+Qed.
+
+Lemma ends_with_root : ends_with [47] [47] = true.
+Proof. reflexivity. Qed.
+
+Lemma join_path_root nm : join_path [47] nm = 47 :: nm.
+Proof. reflexivity. Qed.
+
+(* below a canonical directory, the separator count of an entry is the directory's depth *)
+Lemma count_join c nm : canon_ok c -> name_okb nm = true ->
+  count_char 47 (join_path c nm) = calc_depth c.
+Proof.
+  intros [->|[He Hk]] Hn.
+  - rewrite join_path_root, calc_depth_root. cbn [count_char]. rewrite N.eqb_refl, (name_ok_count nm Hn). lia.
+  - assert (Hr : c <> [47]). { intros ->. rewrite ends_with_root in He. discriminate. }
+    rewrite (calc_depth_nonroot c Hr). unfold join_path. destruct c as [|x c]; [cbn [count_char] in Hk; lia|].
+    rewrite He, !count_char_app, (name_ok_count nm Hn). cbn [count_char]. rewrite N.eqb_refl. lia.
+Qed.
+
+Lemma canon_ok_join c nm : canon_ok c -> name_okb nm = true -> canon_ok (join_path c nm).
+Proof.
+  intros Hc Hn. right. split; [now apply ends_join|].
+  rewrite (count_join c nm Hc Hn). apply calc_depth_pos.
+Qed.
+
+Lemma calc_depth_join c nm : canon_ok c -> name_okb nm = true ->
+  calc_depth (join_path c nm) = calc_depth c + 1.
+Proof.
+  intros Hc Hn.
+  assert (Hr : join_path c nm <> [47]).
+  { intros E. pose proof (ends_join c nm Hn) as He. rewrite E, ends_with_root in He. discriminate. }
+  rewrite (calc_depth_nonroot _ Hr), (count_join c nm Hc Hn). reflexivity.
+Qed.
+
 Definition depth_inv (canon : str) (rd d : N) : Prop :=
-  ends_with [47] canon = false /\
+  canon_ok canon /\
   base_depth_of rd (calc_depth canon) <> 0 /\
   base_depth_of rd (calc_depth canon) <= calc_depth canon /\
   depth_of (calc_depth canon) (base_depth_of rd (calc_depth canon)) = d.
 
 Lemma depth_inv_root c : canon_ok c -> depth_inv c 0 1.
-Proof. intros [H1 H2]. unfold depth_inv, base_depth_of, depth_of. rewrite N.eqb_refl. repeat split; [exact H1|lia|lia|lia]. Qed.
+Proof.
+  intros Hc. pose proof (calc_depth_pos c) as Hp.
+  unfold depth_inv, base_depth_of, depth_of. rewrite N.eqb_refl. split; [exact Hc|]. repeat split; lia.
+Qed.
 
 Lemma base_depth_nz b x : b <> 0 -> base_depth_of b x = b.
 Proof. intros H. unfold base_depth_of. destruct (N.eqb_spec b 0); [contradiction|reflexivity]. Qed.
@@ -155,9 +201,8 @@ Lemma depth_inv_step c rd d nm : depth_inv c rd d -> name_okb nm = true ->
   depth_inv (join_path c nm) (base_depth_of rd (calc_depth c)) (d + 1).
 Proof.
   intros [H1 [H2 [H3 H4]]] Hn.
-  assert (Hc : c <> []). { intros ->. change (calc_depth []) with 0 in *. lia. }
-  unfold depth_inv. rewrite (calc_depth_join c nm H1 Hc Hn), (base_depth_nz _ _ H2).
-  repeat split; [now apply ends_join|exact H2|lia|]. unfold depth_of in *. lia.
+  unfold depth_inv. rewrite (calc_depth_join c nm H1 Hn), (base_depth_nz _ _ H2).
+  split; [now apply canon_ok_join|]. repeat split; [exact H2|lia|]. unfold depth_of in *. lia.
 Qed.
 
 Lemma depth_inv_base c rd d : depth_inv c rd d ->
@@ -172,13 +217,12 @@ Lemma depth_of_level c names :
   depth_of (calc_depth canon) (base_depth_of 0 (calc_depth c)) = N.of_nat (length names) + 1.
 Proof.
   intros Hc Hn.
-  assert (G : forall c0, ends_with [47] c0 = false -> 1 <= calc_depth c0 ->
+  assert (G : forall c0, canon_ok c0 ->
               calc_depth (fold_left join_path names c0) = calc_depth c0 + N.of_nat (length names)).
-  { induction Hn as [|nm names Hnm _ IH]; intros c0 H1 H2; cbn [fold_left length]; [lia|].
-    assert (c0 <> []) by (intros ->; cbn in H2; lia).
-    rewrite IH; [|now apply ends_join|rewrite calc_depth_join by assumption; lia].
-    rewrite calc_depth_join by assumption. lia. }
-  destruct Hc as [H1 H2]. cbn zeta. rewrite (G c H1 H2). split; [reflexivity|].
+  { induction Hn as [|nm names Hnm _ IH]; intros c0 H0; cbn [fold_left length]; [lia|].
+    rewrite (IH (join_path c0 nm) (canon_ok_join c0 nm H0 Hnm)).
+    rewrite (calc_depth_join c0 nm H0 Hnm). lia. }
+  cbn zeta. rewrite (G c Hc). split; [reflexivity|].
   unfold depth_of, base_depth_of. rewrite N.eqb_refl. lia.
 Qed.
 
